@@ -71,6 +71,10 @@ def c03_jobs(tier):
         for fwd in (1, 0):
             for z in range(1, n + 1):
                 jobs.append(J('root', 'H_C03_cusum', [n, fwd, z], pin_consts=True))
+    for n in ((100, 128, 1000) if q else (100, 101, 128, 1000, 4096)):
+        for first in (0, 1):
+            for fwd in (1, 0):
+                jobs.append(J('root', 'H_C03_cusum_alt', [n, first, fwd]))
     # long series: small excursions at larger n (n/Z up to 100 terms)
     for n in ((34, 36, 40) if q else (34, 36, 40, 48, 64)):
         for fwd in (1, 0):
@@ -273,9 +277,10 @@ def c18_jobs(tier):
             jobs.append(J('root', 'H_C18_pure_bytes', [which, nb], race=True))
     for (t, par, n) in [(0, 0, 9), (1, 3, 10), (2, 4, 13), (3, 3, 9), (3, 5, 11), (4, 0, 9), (7, 3, 12), (8, 2, 17), (10, 2, 8), (11, 2, 9), (12, 4, 9)]:
         jobs.append(J('root', 'H_C18_window', [t, par, n, 8], race=True))
-    for (t, par, n1, n2) in [(14, 0, 100, 128), (14, 0, 9, 16), (0, 0, 9, 12), (1, 3, 10, 12), (2, 4, 13, 16), (3, 3, 9, 12), (4, 0, 9, 12), (6, 1, 130, 128),
-                             (7, 3, 12, 9), (8, 2, 17, 20), (10, 2, 8, 9), (11, 2, 9, 13), (12, 4, 9, 13)]:
-        jobs.append(J('root', 'H_C18_history', [t, par, n1, n2], stubs=['fft_summary'], race=True))
+    for (t, par, n1, n2, n3) in [(14, 0, 100, 128, 30), (14, 0, 9, 16, 5), (14, 0, 128, 100, 200), (0, 0, 9, 12, 5), (1, 3, 10, 12, 7), (2, 4, 13, 16, 9),
+                                 (3, 3, 9, 12, 6), (4, 0, 9, 12, 5), (6, 1, 130, 128, 136), (7, 3, 12, 9, 10), (8, 2, 17, 20, 18), (10, 2, 8, 9, 5),
+                                 (11, 2, 9, 13, 4), (12, 4, 9, 13, 5)]:
+        jobs.append(J('root', 'H_C18_history', [t, par, n1, n2, n3], stubs=['fft_summary'], race=True))
     return jobs
 
 
@@ -388,7 +393,7 @@ PROPS = {
     'C18': {
         'jobs': c18_jobs,
         'technique': 'solver-based bounded checking of the real code with effect tracking: during symbolic execution every store whose target object existed before the call (caller slices, package-level variables) becomes an obligation; input-unchanged and same-result-on-second-call are asserted over symbolic inputs; models are replayed natively with a concurrent second call under the Go race detector',
-        'bounds': {'quick': 'thirteen test functions (all but Maurer/DFT/runs distribution) at n = 6..19 bits (longest run 128/130), byte fast paths at 2 and 5 bytes: no store outside memory allocated by the call, input cells equal afterwards, second call gives identical terms; the same tests on a window of a longer slice (spare capacity): memory behind the window untouched; T(x), T(y) with another length, T(x) again gives the first result (incl. the DFT test with the transform summarised)',
+        'bounds': {'quick': 'thirteen test functions (all but Maurer/DFT/runs distribution) at n = 6..19 bits (longest run 128/130), byte fast paths at 2 and 5 bytes: no store outside memory allocated by the call, input cells equal afterwards, second call gives identical terms; the same tests on a window of a longer slice (spare capacity): memory behind the window untouched; T(y), T(x), T(z), T(x) with three different lengths: both results for x agree (incl. the DFT test with the transform summarised)',
                    'thorough': 'larger n (<= 24), runs distribution at n=100'},
         'outside': 'Maurer, DFT and the round functions (their purity follows from the same pattern but is not executed here); inputs above the bounds; freedom from data races between concurrent calls is the stated consequence of "writes only to memory allocated by the call, reads of shared data only" - the premises are checked, the conclusion is an argument (natively confirmed by the race detector only on replayed counterexamples)',
         'assumptions': ['object identity in the memory model is exact: a store is attributed to the allocation it addresses'],
@@ -462,7 +467,7 @@ PROPS = {
     },
     'C03': {
         'jobs': c03_jobs,
-        'bounds': {'quick': 'binary derivative k in {3,7,15}, autocorrelation d in {1,2,8,16,32}: n<=32; cumulative sums n<=16, both directions, every excursion z=1..n (one obligation per z, exhaustiveness of the split proven), and the smallest excursion z=1 at n in {34,36,40} (series with more than 32 terms)',
+        'bounds': {'quick': 'binary derivative k in {3,7,15}, autocorrelation d in {1,2,8,16,32}: n<=32; cumulative sums n<=16, both directions, every excursion z=1..n (one obligation per z, exhaustiveness of the split proven), and the smallest excursion z=1 at n in {34,36,40} (series with more than 32 terms); the two alternating sequences (Z=1) at n in {100,128,1000} concretely',
                    'thorough': 'binary derivative / autocorrelation n<=64; cumulative sums n<=28'},
         'outside': 'n above the bounds (the standard minimum is 100 bits: the same code is exercised at smaller n); binary64 rounding; erfc/erf accuracy',
         'assumptions': ['float64 tails as exact reals; erfc/erf uninterpreted on symbolic arguments, libm on concrete arguments', 'cumulative sums: series limits follow the NIST/GM-T integer (truncating) arithmetic'],
